@@ -335,15 +335,40 @@ pub fn error_exit_rules() -> Vec<Value> {
     }
     r.push(json!({"var": "a"}));
     r.push(json!({"+": [{"var": "a"}, 1]}));
+    // every iterating / accumulating family failing PART-WAY (at the second element, character or operand),
+    // and its well-formed siblings over strings and arrays of the same and of other sizes
+    let fail_num = json!({"/": [1, {"-": [{"var": ""}, 2]}]}); // fails at the element 2
+    let fail_chr = json!({"+": [{"var": ""}]}); // fails at the first non-digit character
+    for k in ["all", "some", "none", "map", "filter"] {
+        r.push(json!({k: [{"var": "xs"}, fail_num]}));
+        r.push(json!({k: [{"var": "serial"}, fail_chr]}));
+        r.push(json!({k: [{"var": "code"}, {"===": [{"var": ""}, "7"]}]}));
+        r.push(json!({k: [{"var": "xs"}, {">": [{"var": ""}, 0]}]}));
+        r.push(json!({k: ["", true]}));
+    }
+    r.push(json!({"reduce": [{"var": "xs"}, {"/": [{"var": "accumulator"}, {"-": [{"var": "current"}, 2]}]}, 1]}));
+    r.push(json!({"reduce": [{"var": "xs"}, {"+": [{"var": "accumulator"}, {"var": "current"}]}, 0]}));
+    r.push(json!({"cat": [{"var": "code"}, {"+": ["x"]}, "tail"]}));
+    r.push(json!({"cat": [{"var": "code"}, "-", {"var": "serial"}]}));
+    r.push(json!({"merge": [{"var": "xs"}, {"-": ["a", 1]}, [9]]}));
+    r.push(json!({"merge": [{"var": "xs"}, [9]]}));
+    r.push(json!({"+": [1, "2", "x", 4]}));
+    r.push(json!({"max": [1, [2], {}, 4]}));
+    r.push(json!({"missing": ["a", ["b"], "c"]}));
+    r.push(json!({"missing": ["a", "b", "c"]}));
+    r.push(json!({"substr": [{"var": "code"}, "x"]}));
+    r.push(json!({"substr": [{"var": "serial"}, 1]}));
+    r.push(json!({"in": ["7", {"var": "xs"}]}));
+    r.push(json!({"in": [{"var": "a"}, 4]}));
     r
 }
 
 pub fn error_exit_datas() -> Vec<Value> {
-    vec![json!({"a": 4})]
+    vec![json!({"a": 4, "xs": [1, 2, 3], "code": "777", "serial": "12a"})]
 }
 
 pub fn run(ctx: &mut Ctx) {
-    run_alphabet(ctx, "error-exit", error_exit_rules(), error_exit_datas(), 24, 1);
+    run_alphabet(ctx, "error-exit", error_exit_rules(), error_exit_datas(), 40, 1);
     run_alphabet(ctx, "capacity", capacity_rules(), capacity_datas(), 13, 1);
     run_alphabet(ctx, "twins", rules(), twin_datas(), 40, 2);
     run_alphabet(ctx, "lexer", lexer_rules(), lexer_datas(), 24, 2);
